@@ -539,6 +539,8 @@ def walk_class(cls, seed, scratch, maxwalk):
     total = 0
     stats = {"transitions": table.ntrans, "states": len(table.states), "covered": 0, "walks": 0, "steps": 0, "blocked": 0, "legs": {}}
 
+    adj = {k: [(ti, [(oi, o["k2"]) for oi, o in enumerate(tr["outs"])]) for ti, tr in enumerate(st["trans"])] for k, st in table.states.items()}
+
     def route(src):
         """shortest list of transition indices from src to a state that still has something to do"""
         if todo[src]:
@@ -547,12 +549,11 @@ def walk_class(cls, seed, scratch, maxwalk):
         q = deque([src])
         while q:
             k = q.popleft()
-            for ti, t in enumerate(table.states[k]["trans"]):
+            for ti, outs in adj[k]:
                 if (k, ti) in bad:
                     continue
-                for oi, o in enumerate(t["outs"]):
-                    k2 = o["k2"]
-                    if k2 in prev or chosen.get((k, ti), oi) != oi:
+                for oi, k2 in outs:
+                    if k2 in prev or (len(outs) > 1 and chosen.get((k, ti), oi) != oi):
                         continue
                     prev[k2] = (k, ti)
                     if todo[k2]:
